@@ -75,14 +75,14 @@ func NewCoordinator(
 // the result of all of them is needed. The processes should have an unique session ID for each one.
 func (c *Coordinator) Execute(ctx context.Context, tssProcesses []TssProcess, resultChn chan interface{}) error {
 	sessionID := tssProcesses[0].SessionID()
-	value, ok := c.pendingProcesses[sessionID]
-	if ok && value {
-		log.Warn().Str("SessionID", sessionID).Msgf("Process already pending")
-		return fmt.Errorf("process already pending")
-	}
 
 	verifhook.Yield(ctx, "tss.Coordinator.Execute:admit")
 	c.processLock.Lock()
+	if c.pendingProcesses[sessionID] {
+		c.processLock.Unlock()
+		log.Warn().Str("SessionID", sessionID).Msgf("Process already pending")
+		return fmt.Errorf("process already pending")
+	}
 	c.pendingProcesses[sessionID] = true
 	c.processLock.Unlock()
 
